@@ -46,18 +46,19 @@ type Ctx struct {
 	replayN    int
 	inconcl    []string
 	// coverage
-	Evaluations int
-	distinct    map[string]struct{}
-	Rule        string
-	Samples     []any
-	Extra       map[string]any
-	Assumptions []string
-	counters    map[string]int
-	sets        map[string]map[string]struct{}
-	MinDistinct int // a run that observed fewer distinct non-trivial cases is inconclusive
-	shard       int // -1: parent / inline; >=0: this process executes the cases i with i % shards == shard, serially
-	shards      int
-	pending     []pendingViolation
+	Evaluations     int
+	distinct        map[string]struct{}
+	Rule            string
+	Samples         []any
+	Extra           map[string]any
+	Assumptions     []string
+	counters        map[string]int
+	sets            map[string]map[string]struct{}
+	MinDistinct     int  // a run that observed fewer distinct non-trivial cases is inconclusive
+	HangIsViolation bool // C17 only: the property claims termination
+	shard           int  // -1: parent / inline; >=0: this process executes the cases i with i % shards == shard, serially
+	shards          int
+	pending         []pendingViolation
 }
 
 type pendingViolation struct {
@@ -437,6 +438,11 @@ func (c *Ctx) RunShards() {
 			key := "shard-died"
 			if ee, ok := r.err.(*exec.ExitError); ok && ee.ExitCode() == 4 {
 				key = "hang"
+			}
+			if key == "hang" && !c.HangIsViolation {
+				// a wall-clock deadline is not a verdict: only the property that claims termination (C17) turns it into one
+				c.Inconclusive(fmt.Sprintf("worker %d/%d: case %v did not return within the %s watchdog", r.k, w, rp["case"], CaseWatchdog))
+				continue
 			}
 			c.Violation(key, fmt.Sprintf("worker process %d/%d died while driving the library (%v) in case %v: %s", r.k, w, r.err, rp["case"], first), rp)
 			continue
